@@ -6,28 +6,26 @@ hints at legitimate rewrites that those rules must stay quiet on.  usage: make_r
 import sys, json, glob
 RND = sys.argv[1]
 props={json.loads(l)['id']:json.loads(l) for l in open('/verif/properties.jsonl')}
-targets={
-'C01':'nfa_accepts_word (e.g. the step written with set.union over a list that starts with an empty set, or with an explicit loop and an early exit when no state is left), epsilon_closure (e.g. an early `continue` for states without epsilon moves), _nfa_cache, nfa_do_transition',
-'C02':'nfa_words_up_to_n, dfa_words_up_to_n (e.g. a loop that stops when the frontier is empty), tm_words_up_to_n, words_up_to_n',
-'C03':'nfa_to_dfa (e.g. the move step with an explicit membership test and `continue`, a search helper that returns at the first hit), nfa_do_transition, epsilon_closure',
-'C04':'dfa_minimize together with dfa_from_table (e.g. one shared helper that enumerates the states, sorted(Q) in BOTH), dfa_quotient, dfa_hopfcroft',
-'C05':'regexp_accepts_word (e.g. the star and concatenation cases as explicit loops over the split point with `break` after a success, or a for/else), regexp_simplify, the two parse-tree visitors (without changing what they build)',
-'C06':'dfa_to_gnfa (e.g. grouping the parallel transitions per state pair with a dictionary of lists, or with itertools.groupby on data sorted by the SAME key), gnfa_minimize, dfa_to_regexp',
-'C07':'cfg_accepts_word, cfg_cyk_matrix, cfg_to_chomsky_in_place (e.g. a table of phases), cfg_derivable_variables, cfg_eliminate_unit_rules_in_place (e.g. comparing symbols after an isinstance test)',
-'C08':'cfg_make_rules_of_length_two_in_place (e.g. building the chain with zip, or a helper that splits one rule), cfg_eliminate_terminals_in_place, cfg_remove_epsilon_rules_in_place, cfg_add_new_start_variable_in_place',
-'C09':'pda_epsilon_closure (e.g. `while True` with explicit breaks for the empty worklist and the limit), pda_do_transition (e.g. a direct key test before reading delta), pda_accepts_word',
-'C10':'fresh_symbol (e.g. extra alphabets to avoid, written correctly with all/any), pda_to_accept_on_empty_stack_in_place, pda_to_push_pop_in_place, pda_to_cfg',
-'C11':'tm_accepts_word and tm_simulate_word (e.g. a shared helper that yields the step numbers, with the budget 0 handled correctly), tm_do_transition',
-'C12':'check_dfa_minimal (e.g. two one-sided size tests with different messages, or sizes compared in a helper), check_dfa_complement, check_nfa2dfa / check_nfa_to_dfa_answer, compare_languages',
-'C13':'parse_word_list (e.g. a regular expression that also accepts commas, with the empty tokens filtered out), apply_command, nfa_to_dfa, dfa_reverse',
-'C14':'dfa_no_prefix (e.g. built from the reachable part with a worklist and `continue` at accepting states), dfa_reverse, dfa_product, dfa_remove_unreachable_states (e.g. a worklist instead of levels)',
-'C15':'nfa_find_transition (e.g. a direct lookup guarded by a key test, or .get with a default), pda_find_transition, nfa_find_epsilon_path (e.g. stop the search when the target is popped), cfg_derive_word',
-'C16':'the parse-tree visitors of regexp_parser.py and regexp_simple_parser.py (e.g. one generic helper, explicit constructor calls -- building exactly the same trees), print_regexp_simple, print_regexp, print_nfa',
-'C17':'PDA._check_validity, NFA._check_validity, DFA._check_validity (e.g. assertion messages, conditions merged or split correctly, De Morgan forms that are right), PDABuilder.build, AutomatonBuilder.get_symbol_set',
-'C18':'_fresh_nfa_state (e.g. several state sets passed separately, tested correctly), nfa_union, nfa_repetition, nfa_concatenation',
-'C19':'dfa_from_table and dfa_minimize (e.g. a shared enumeration helper), dfa_hopfcroft, cfg_remove_useless_rules / other pure-in_place twins, pda_epsilon_closure',
-'C20':'dfa_isomorphic1 (e.g. the two tests of a popped pair merged into named booleans with the acceptance test, in positive or negative form, written correctly), dfa_isomorphic',
-}
+targets={'C01': 'NFA.__init__ / NFA._check_validity (e.g. named booleans, a helper that checks one transition), epsilon_closure (e.g. a deque as worklist, popping from the left, with the visited test at push time), nfa_accepts_word',
+'C02': 'cfg_words_up_to_n, regexp_words_up_to_n (e.g. the cases of the expression as a table of small functions), pda_words_up_to_n, CFG.is_chomsky (e.g. explicit loops with early `return False`, correctly)',
+'C03': 'nfa_to_dfa (e.g. accepting subsets computed after the exploration from the SUBSETS, not from their printed names; a deque as worklist), print_state_set, DFA._check_validity / DFA._is_total',
+'C04': 'dfa_hopfcroft (e.g. the result assembled by a helper from the blocks; the initial block looked up among the blocks), dfa_quotient, dfa_minimize',
+'C05': 'regexp_simplify (e.g. the cases as a dispatch on the class with helper functions simplify_sum / simplify_concat / simplify_iteration; `type(x) is Zero` style tests), regexp_accepts_word (e.g. splits enumerated with a helper generator)',
+'C06': 'RegexpToNFAGenerator.generate (e.g. a dispatch table keyed by class; str(x) used ONLY for logging), regexp_to_nfa, dfa_to_regexp, gnfa_minimize',
+'C07': 'CFG.is_chomsky, Rule.is_chomsky, Alternative.is_chomsky (e.g. explicit loops, a match on the length of the right-hand side, helper predicates -- exactly the same truth value for every right-hand side of length 0..4), cfg_accepts_word',
+'C08': 'cfg_to_chomsky_in_place (e.g. a list of phases run in a loop, verbose printing in a helper), cfg_remove_epsilon_rules_in_place (e.g. duplicates removed while appending, ORDER of the rules preserved), cfg_fresh_variable, cfg_add_new_start_variable_in_place',
+'C09': 'pda_epsilon_closure (e.g. a deque or list as worklist with the visited test at PUSH time so that the iteration budget is still spent per configuration), PDAState (e.g. __hash__ on a tuple of the fields while the stack stays a list and __eq__ unchanged), pda_accepts_word',
+'C10': 'pda_to_cfg (e.g. the three groups of rules built by helpers, variables created through a memo table), pda_to_push_pop_in_place, pda_to_one_accepting_state_in_place',
+'C11': 'tm_do_transition (e.g. the head movement as explicit if/elif/else with the left end handled first), tm_accepts_word, tm_simulate_word',
+'C12': 'Alternative.is_chomsky / CFG.is_chomsky (e.g. rewritten with helper predicates, same truth value for every shape), cfg_check_chomsky, check_cfg_is_chomsky, check_automaton_accepts_rejects',
+'C13': 'cfg_remove_epsilon_rules_in_place (e.g. an ordered de-duplication with a `seen` set while appending -- the ORDER of the rules must stay), print_dfa / print_nfa (e.g. lines collected in a list and joined; f-strings), cfg_print_simple, cfg_apply_chomsky',
+'C14': 'dfa_union / dfa_intersection / dfa_symmetric_difference (e.g. functools.partial or a helper taking the product type -- bound correctly), dfa_product, dfa_complement, dfa_reverse',
+'C15': 'PDAState (e.g. __str__ / __lt__ / __hash__ tidied while stack stays a list), pda_find_transition (e.g. a helper that computes the successor stack once), pda_simulate_word, pda_pop_push',
+'C16': 'print_dfa, print_nfa, print_pda, print_tm (e.g. lines collected in a list and joined with newlines, f-strings, a shared helper for the transition lines -- the same text up to trailing whitespace the parser ignores), parse_nfa / parse_pda (keeping their own keyword sets), AutomatonParser.parse_line (e.g. a dispatch table for the declaration keywords)',
+'C17': 'AutomatonParser / AutomatonBuilder (e.g. regular expressions compiled once in __init__ and used with .fullmatch; _check_no_duplicates via a set comparison that still names the duplicate), DFABuilder.build, NFABuilder.build, PDABuilder.build, TMBuilder.build (e.g. shared preamble helper that runs ALL the checks)',
+'C18': '_add_nfa_transitions (e.g. called once per operand from a loop in the callers, each operand with ITS OWN epsilon), nfa_union, nfa_concatenation, nfa_repetition',
+'C19': 'regexp_simplify (e.g. helper functions per constructor), gnfa_minimize (e.g. states ripped in sorted order), cfg_remove_epsilon_rules_in_place (order preserving), dfa_hopfcroft',
+'C20': 'dfa_isomorphic (e.g. the two counting loops replaced by collections.Counter over the matched pairs, or by one loop that fills two dictionaries of partner lists -- still rejecting a state with two partners on either side), dfa_isomorphic1'}
 rtmpl='''You are helping to evaluate a verification effort for the Python library wiegerw/gambatools (formal-language algorithms: DFA/NFA/PDA/TM/CFG/regexp, plus Jupyter exercise checkers). Your job is to play the role of a careful developer who REFACTORS code WITHOUT changing its behaviour.
 
 You have your own scratch git worktree of the repository at {wt} (package sources under src/gambatools, notebooks under notebooks/, tests under tests/). Work ONLY inside that directory. Do not read or write anything under /verif or /repo, and do not look for verification tooling elsewhere on the machine. Run Python as /venv/bin/python with PYTHONPATH={wt}/src so that your worktree's sources are imported. Always run Python and pytest under `timeout 300` (pytest: `timeout 900`). Do NOT use `git stash`.
